@@ -276,7 +276,6 @@ func ringsAreEqual(ringI, ringJ [][2]float64, iIsOuter, jIsOuter bool) bool {
 }
 
 func matchInnersToPolygons(polygons [][][][2]float64, innerRings [][][2]float64, hasInners bool) [][][][2]float64 {
-	lenPolygons := len(polygons)
 	if len(innerRings) == 0 {
 		return polygons
 	}
@@ -285,37 +284,41 @@ func matchInnersToPolygons(polygons [][][][2]float64, innerRings [][][2]float64,
 	var innersTurnedOuters [][][2]float64
 matchInners:
 	for _, innerRing := range innerRings {
-		containsPerPolyI := orderedmap.New[int, uint](orderedmap.WithCapacity[int, uint](lenPolygons)) // TODO don't need ordered map anymore?
-		// this is pretty nested, but usually breaks early
-		for _, vertex := range innerRing {
-			for polyI := range polygons {
-				contains, _ := ringContains(polygons[polyI][0], vertex)
-				// it doesn't matter if on boundary or not, if not on boundary there could still be multiple (nested) matching polygons
-				if contains {
-					containsPerPolyI.Set(polyI, containsPerPolyI.Value(polyI)+1)
+		// an inner ring belongs to an outer ring that contains all of its vertices (vertices on the boundary included),
+		// if there are multiple: the smallest one. (just one contained vertex is not enough: after splitting rings at
+		// vertices they pass more than once, rings next to each other share vertices.)
+		var matchingPolyIs []int
+		for polyI := range polygons {
+			containsAll := true
+			for _, vertex := range innerRing {
+				if contains, _ := ringContains(polygons[polyI][0], vertex); !contains {
+					containsAll = false
+					break
 				}
 			}
-			matchingPolyI, _, matchCount := mapslicehelp.FindLastKeyWithMaxValue(containsPerPolyI)
-			if matchCount == 1 {
-				polygons[matchingPolyI] = append(polygons[matchingPolyI], innerRing)
-				continue matchInners
+			if containsAll {
+				matchingPolyIs = append(matchingPolyIs, polyI)
 			}
 		}
-		if containsPerPolyI.Len() == 0 {
-			// no (single) matching outer ring was found
+		switch len(matchingPolyIs) {
+		case 0:
+			// no matching outer ring was found
 			// presumably because the inner ring's winding order is incorrect and it should have been an outer
 			// TODO is that presumption correct and is this really never a panic? // panicNoMatchingOuterForInnerRing(polygons, innerRing)
 			// TODO should it be a candidate for other the other inner rings?
 			log.Printf("no matching outer for inner ring found, turned inner into outer. original has inners: %v", hasInners)
 			innersTurnedOuters = append(innersTurnedOuters, mapslicehelp.ReverseClone(innerRing))
-			continue
+			continue matchInners
+		case 1:
+			polygons[matchingPolyIs[0]] = append(polygons[matchingPolyIs[0]], innerRing)
+			continue matchInners
 		}
 		// multiple matching outer rings were found. use the smallest one
 		// TODO dedupe poly outers (not here)
 		if polyISortedByOuterAreaDesc == nil {
 			polyISortedByOuterAreaDesc = sortPolyIdxsByOuterAreaDesc(polygons)
 		}
-		smallestMatchingPolyI := mapslicehelp.LastMatch(polyISortedByOuterAreaDesc, mapslicehelp.OrderedMapKeys(containsPerPolyI))
+		smallestMatchingPolyI := mapslicehelp.LastMatch(polyISortedByOuterAreaDesc, matchingPolyIs)
 		polygons[smallestMatchingPolyI] = append(polygons[smallestMatchingPolyI], innerRing)
 	}
 	for i := range innersTurnedOuters {
